@@ -32,6 +32,12 @@ impl SwiftField for Field23 {
     where
         Self: Sized,
     {
+        if !input.is_ascii() {
+            return Err(ParseError::InvalidFormat {
+                message: "Field 23 must contain only ASCII characters".to_string(),
+            });
+        }
+
         if input.len() < 4 {
             // Minimum: 3 char function code + 1 char reference
             return Err(ParseError::InvalidFormat {
